@@ -69,11 +69,13 @@ type entryRec struct {
 	Seq   int64    `json:"seq"` // log sequence the entry received (-1 unknown)
 	Rows  []rowRec `json:"rows"`
 	IDs   []rowIDs `json:"ids,omitempty"` // ids of the rows' names right after the entry was applied in the driven run
-	First int      `json:"first"` // number of images before WriteLog was called
-	Last  int      `json:"last"`  // number of images when WriteLog had returned (-1: never returned)
+	First int      `json:"first"`         // number of images before WriteLog was called
+	Last  int      `json:"last"`          // number of images when WriteLog had returned (-1: never returned)
 	// AppliedTick: logical time at which the local replicator's WriteRows for this entry returned in the driven run
 	// (0 = not applied before the end of the history).
 	AppliedTick int64 `json:"applied_tick"`
+	ApplyLo     int64 `json:"apply_lo"`    // logical time right before that WriteRows was called (0 = never)
+	CommitTick  int64 `json:"commit_tick"` // logical time right after CommitSequence of the entry
 	WriteTick   int64 `json:"write_tick"`
 	Writers     int   `json:"writers"` // number of concurrent WriteLog callers in the append action
 	Garbage     bool  `json:"garbage,omitempty"`
@@ -88,12 +90,19 @@ type flushRec struct {
 	Shard     int    `json:"shard"`
 	Family    int64  `json:"fam"`
 	Cycle     int    `json:"cycle"`
-	BeginTick int64  `json:"begin_tick"` // logical time right before the flush call
-	DoneTick  int64  `json:"done_tick"`
-	BeginImg  int    `json:"begin_img"`
-	DoneImg   int    `json:"done_img"` // number of images when the call had returned
-	Racing    bool   `json:"racing,omitempty"`
-	Err       string `json:"err,omitempty"`
+	BeginTick int64  `json:"begin_tick"` // logical time right before the flush call (the memory stores are swapped after it)
+	// BeginTickHi: logical time at which the swap had certainly happened. Step-wise cycles call each flush themselves
+	// (= BeginTick); in cycles run by the real doFlush it is the time of the first file-system operation of the store.
+	BeginTickHi int64 `json:"begin_tick_hi"`
+	// SwitchLo: logical time after which the swap happened (real doFlush: time of the last file-system operation seen
+	// before the first one of this store; step-wise: BeginTick)
+	SwitchLo int64  `json:"switch_lo"`
+	Real     bool   `json:"real,omitempty"`
+	DoneTick int64  `json:"done_tick"`
+	BeginImg int    `json:"begin_img"`
+	DoneImg  int    `json:"done_img"` // number of images when the call had returned
+	Racing   bool   `json:"racing,omitempty"`
+	Err      string `json:"err,omitempty"`
 	// data flushes: sequence persisted according to the family state after the call
 	PersistSeq int64 `json:"persist_seq"`
 	Injected   int   `json:"injected"`   // arrivals executed at file-system operations of this step
